@@ -16,18 +16,16 @@ Theorem monitor_pool_holds_on_model : forall cfg c0 evs,
 Proof. exact p_pool_reachable. Qed.
 Print Assumptions monitor_pool_holds_on_model.
 
-(* Full statement wanted: forall evs, p_inv lease [] (observation of the
-   reachable state) = "".  It is false of the model for a reason that lies
-   in the monitor, not in the code: Spec.owner_code is not injective, so two
-   clients whose lock-owner names collide under it (client 1 / owner 3072,
-   client 4 / owner 0) and who hold overlapping shared locks make p_locks
-   report C20:table-not-wf on a state without panic whose table is well
-   formed.  (The harness only generates small lock-owner names.) *)
-Theorem monitor_locks_refuted_for_large_owner_names :
+(* Regression example for a false alarm of the monitor found while
+   attempting the rest of the monitor link: with the first (non-injective)
+   [Spec.owner_code], p_locks reported C20:table-not-wf on the dump of this
+   model state (client 1 / lock-owner 3072 and client 4 / lock-owner 0 hold
+   overlapping shared locks).  With the injective encoding it passes. *)
+Theorem monitor_locks_accepts_large_owner_names :
   let st := reachable (mkConfig 4000 2 6) 1000 collide_events in
   st_panic st = false
   /\ map (fun p => map (fun k => (LS.lstart k, LS.lend k, LS.lowner k, LS.ltyp k)) (pf_locks p)) (st_pool st)
      = [[(0, 10, 2, LS.Shared); (0, 10, 1, LS.Shared)]]
-  /\ p_locks [] (dump_of st) = "C20:table-not-wf".
-Proof. exact p_locks_refuted. Qed.
-Print Assumptions monitor_locks_refuted_for_large_owner_names.
+  /\ p_locks [] (dump_of st) = "" /\ p_owner (dump_of st) = "".
+Proof. exact p_locks_large_names. Qed.
+Print Assumptions monitor_locks_accepts_large_owner_names.
